@@ -19,6 +19,7 @@ POP_RULE = ("runs = generated (optimizer, task, configuration, seed, mode) tuple
 INST = {"C07", "C08", "C18"}
 POP = {"C01", "C02", "C03", "C05", "C06", "C09", "C10", "C15", "C17"}
 TABLE = {
+    "C20": ("c20", "", None),
     "C19": ("c19", "", None),
     "C11": ("c11", "", None),
     "C12": ("c12", "", None),
